@@ -659,6 +659,184 @@ def check_store_entry_views():
     return fails[:3]
 
 
+# ---- views while updates are in flight; processes that write into the states they were handed --------------------------
+class Adder(Process):
+    defaults = {'timestep': 1.0, 'script': {}}
+
+    def __init__(self, parameters=None):
+        super().__init__(parameters)
+        self.k = 0
+
+    def ports_schema(self):
+        return {'items': {'*': {'level': {'_default': 10.0, '_emit': True}}}}
+
+    def next_update(self, timestep, states):
+        self.k += 1
+        op = self.parameters['script'].get(str(self.k))
+        if not op:
+            return {}
+        if op[0] == 'add':
+            return {'items': {'_add': [{'key': op[1], 'state': {'level': 10.0}}]}}
+        return {'items': {'_delete': [op[1]]}}
+
+
+class Scribbler(Process):
+    """reads a glob store through a relative path, has an output-only port and a port on an empty glob store; records what it
+    is shown, then WRITES into the dictionaries it was handed (they are its own copies to keep)"""
+    defaults = {'timestep': 2.0, 'scribble': True}
+
+    def __init__(self, parameters=None):
+        super().__init__(parameters)
+        self.seen = []
+
+    def ports_schema(self):
+        return {'items': {'*': {'level': {'_default': 10.0}}},
+                'out': {'_output': True, 'y': {'_default': 0.0, '_updater': 'set'}},
+                'empty': {'*': {'v': {'_default': 0}}}}
+
+    def _record(self, what, states):
+        eng = L.CUR.engine
+        hier = strip_procs(eng.state.get_value()) if eng is not None and getattr(eng, 'state', None) is not None else None
+        self.seen.append((what, L.gt(), copy.deepcopy(states), copy.deepcopy(hier)))
+        # one invocation hands ONE states dictionary to calculate_timestep and then to next_update: write only at the end of it
+        if self.parameters['scribble'] and what == 'next_update':
+            states['items']['JUNK'] = {'level': -1.0}
+            states['out']['junk'] = 5.0
+            states['empty']['ghost'] = {'v': 9}
+
+    def calculate_timestep(self, states):
+        self._record('calculate_timestep', states)
+        return self.parameters['timestep']
+
+    def next_update(self, timestep, states):
+        shown = sorted(k for k in states['items'] if k != 'JUNK')
+        self._record('next_update', states)
+        return {'items': {k: {'level': 1.0} for k in shown}, 'out': {'y': float(len(shown))}}
+
+
+INFLIGHT_CASES = [{'slow': slow, 'script': script, 'scribble': scr}
+                  for slow in (2.0, 3.0)
+                  for script in ({'2': ['add', 'b']}, {'1': ['add', 'b'], '4': ['delete', 'a']}, {'2': ['add', 'b'], '3': ['add', 'c']}, {})
+                  for scr in (True, False)]
+
+
+def check_inflight_views(case, ticks=7):
+    """a fast process changes the structure of a store while a slower process that reads that store has an update in flight;
+    at EVERY call of the slow process (timestep, update) it is shown exactly the children the hierarchy holds at that moment
+    with their current values, an empty output-only port and an empty glob port -- whatever it wrote into earlier states."""
+    L.new_trace()
+    fails = []
+    scr = Scribbler({'timestep': case['slow'], 'scribble': case['scribble']})
+    try:
+        eng = Engine(processes={'adder': Adder({'script': case['script']}), 'box': {'watch': scr}},
+                     topology={'adder': {'items': ('pool', 'items')},
+                               'box': {'watch': {'items': ('..', 'pool', 'items'), 'out': ('..', 'outstore'), 'empty': ('..', 'nothing')}}},
+                     initial_state={'pool': {'items': {'a': {'level': 0.0}}}}, display_info=False, emitter='null')
+        L.CUR.engine = eng
+        eng.run_for(ticks)          # not forced: the slow process keeps its own intervals, its updates are in flight in between
+    except Exception as e:
+        return ['scenario raised %s: %s' % (type(e).__name__, str(e)[:200])]
+    for what, t, states, hier in scr.seen:
+        if hier is None:
+            continue
+        want_items = {k: {'level': v['level']} for k, v in hier.get('pool', {}).get('items', {}).items()}
+        want = {'items': want_items, 'out': {}, 'empty': {}}
+        if states != want:
+            fails.append('%s at t=%s was shown %r; the hierarchy then held items %r (output-only and empty glob ports are empty)'
+                         % (what, t, states, want_items))
+            break
+    # what it reads is what it writes: a child gets +1 from every update computed while it was shown
+    final = strip_procs(eng.state.get_value())['pool']['items']
+    credit = {}
+    for what, t, states, hier in scr.seen:
+        if what == 'next_update' and t + case['slow'] <= eng.global_time + 1e-9:
+            for k in (hier or {}).get('pool', {}).get('items', {}):
+                credit[k] = credit.get(k, 0) + 1
+    for k, v in final.items():
+        start = 0.0 if k == 'a' else 10.0
+        if abs(v['level'] - (start + credit.get(k, 0))) > 1e-9:
+            fails.append('child %s ends at level %r; it was in the store at %d completed updates of the reader (start %r)'
+                         % (k, v['level'], credit.get(k, 0), start))
+    return fails[:3]
+
+
+# ---- processes replaced in place by a _generate over their compartment ---------------------------------------------------
+class Meter(Process):
+    defaults = {'timestep': 1.0, 'var': 'x', 'gen': 0}
+
+    def __init__(self, parameters=None):
+        super().__init__(parameters)
+        self.handed = []
+
+    def ports_schema(self):
+        return {'s': {self.parameters['var']: {'_default': 0.0, '_emit': True}}}
+
+    def next_update(self, timestep, states):
+        self.handed.append((L.gt(), timestep))
+        return {'s': {self.parameters['var']: timestep}}
+
+
+class Upgrader(Process):
+    defaults = {'timestep': 1.0, 'at': 2, 'names': ['a', 'b'], 'new_dt': 1.0}
+
+    def __init__(self, parameters=None):
+        super().__init__(parameters)
+        self.k = 0
+        self.made = {}
+
+    def ports_schema(self):
+        return {'cells': {'*': {}}}
+
+    def next_update(self, timestep, states):
+        self.k += 1
+        if self.k != self.parameters['at']:
+            return {}
+        self.made = {n: Meter({'var': n, 'gen': 1, 'timestep': self.parameters['new_dt']}) for n in self.parameters['names']}
+        return {'cells': {'_generate': [{'key': 'cell', 'processes': dict(self.made),
+                                          'topology': {n: {'s': ('s',)} for n in self.made}, 'initial_state': {}}]}}
+
+
+REPLACE_CASES = [{'names': names, 'at': at, 'new_dt': nd} for names in (['a'], ['a', 'b'], ['a', 'b', 'c']) for at in (1, 2) for nd in (1.0, 0.5)]
+
+
+def check_replace_in_place(case, total=6):
+    """one update generates new processes at the paths of existing ones (an upgrade of a compartment): every NEW process is then
+    simulated like any other -- handed timesteps that add up to the time since it entered, its variable advanced by as much --
+    and the replaced ones are never invoked again"""
+    L.new_trace()
+    fails = []
+    old = {n: Meter({'var': n}) for n in ('a', 'b', 'c')}
+    up = Upgrader({'at': case['at'], 'names': case['names'], 'new_dt': case['new_dt']})
+    try:
+        eng = Engine(processes={'up': up, 'cells': {'cell': dict(old)}},
+                     topology={'up': {'cells': ('cells',)}, 'cells': {'cell': {n: {'s': ('s',)} for n in old}}},
+                     display_info=False, emitter='null')
+        L.CUR.engine = eng
+        eng.update(total)
+    except Exception as e:
+        return ['scenario raised %s: %s' % (type(e).__name__, str(e)[:200])]
+    entered = float(case['at'])            # the update computed at tick `at` (clock at-1) is applied at time `at`
+    vals = strip_procs(eng.state.get_value())['cells']['cell']['s']
+    for n in ('a', 'b', 'c'):
+        if n in case['names']:
+            new = up.made[n]
+            got = sum(dt for _, dt in new.handed)
+            if abs(got - (total - entered)) > 1e-9:
+                fails.append('new process %s entered at t=%s and the run ended at %s, but it was handed the timesteps %s (sum %s)'
+                             % (n, entered, total, [dt for _, dt in new.handed], got))
+            late = [t for t, _ in old[n].handed if t is not None and t >= entered]
+            if late:
+                fails.append('replaced process %s was still invoked at %s' % (n, late))
+        else:
+            got = sum(dt for _, dt in old[n].handed)
+            if abs(got - total) > 1e-9:
+                fails.append('untouched process %s was handed %s time units in a run of %s' % (n, got, total))
+        if abs(vals[n] - total) > 1e-9:
+            fails.append('variable %s (advanced by every timestep handed to the process at %s) is %r after %s time units'
+                         % (n, n, vals[n], total))
+    return fails[:3]
+
+
 class Env(Process):
     defaults = {'timestep': 1.0}
 
@@ -857,7 +1035,7 @@ def main():
     if a.replay:
         rec = json.load(open(a.replay))
         h = rec['scenario']
-        fails = check_store_reissue(h) if rec.get('kind') == 'storereissue' else check_generate_subschema(h['how']) if rec.get('kind') == 'subschema' else check_store_entry_views() if rec.get('kind') == 'storeentry' else check_reissue(h) if rec.get('kind') == 'reissue' else check_cargo_move(h['target'], h['cargo']) if rec.get('kind') == 'cargo' else (check_moved_views(h) if rec.get('kind') == 'moved' else check_history(h, a.prop))
+        fails = check_replace_in_place(h) if rec.get('kind') == 'replace' else check_inflight_views(h) if rec.get('kind') == 'inflight' else check_store_reissue(h) if rec.get('kind') == 'storereissue' else check_generate_subschema(h['how']) if rec.get('kind') == 'subschema' else check_store_entry_views() if rec.get('kind') == 'storeentry' else check_reissue(h) if rec.get('kind') == 'reissue' else check_cargo_move(h['target'], h['cargo']) if rec.get('kind') == 'cargo' else (check_moved_views(h) if rec.get('kind') == 'moved' else check_history(h, a.prop))
         L.emit_result({'status': 'reproduced' if fails else 'not-reproduced', 'failed': fails})
         return
     n = {'quick': 150, 'thorough': 5000}[a.tier]
@@ -886,6 +1064,26 @@ def main():
         if fails:
             rp = L.write_replay(a.out, a.prop, 'storeentry', {'store_entry': True}, fails, kind='storeentry', extra={'driver': 'bounded.struct'})
             failures.append({'id': '%s.bounded.store-entry: %s' % (a.prop, fails[0][:260]), 'replay': rp})
+    if a.prop in ('C02', 'C01', 'C10'):
+        for ci, case in enumerate(REPLACE_CASES):
+            if len(failures) >= 3:
+                break
+            evaluations += 1
+            fails = check_replace_in_place(case)
+            distinct.add('replace-%d' % ci)
+            if fails:
+                rp = L.write_replay(a.out, a.prop, 'replace%d' % ci, case, fails, kind='replace', extra={'driver': 'bounded.struct'})
+                failures.append({'id': '%s.bounded.replace#%d: %s' % (a.prop, ci, fails[0][:260]), 'replay': rp})
+    if a.prop in ('C07', 'C06'):
+        for ci, case in enumerate(INFLIGHT_CASES):
+            if len(failures) >= 3:
+                break
+            evaluations += 1
+            fails = check_inflight_views(case)
+            distinct.add('inflight-%d' % ci)
+            if fails:
+                rp = L.write_replay(a.out, a.prop, 'inflight%d' % ci, case, fails, kind='inflight', extra={'driver': 'bounded.struct'})
+                failures.append({'id': '%s.bounded.inflight#%d: %s' % (a.prop, ci, fails[0][:260]), 'replay': rp})
     if a.prop in ('C07', 'C10'):
         for mi, script in enumerate(MOVE_SCRIPTS):
             if len(failures) >= 3:
